@@ -12,6 +12,7 @@ use std::sync::atomic::{AtomicUsize, Ordering};
 
 mod cipher;
 mod codec;
+mod mojang;
 mod conn;
 mod packets;
 
@@ -72,6 +73,8 @@ fn main() {
         "locale" => conn::locale(seed),
         "limits" => conn::limits(seed),
         "cipher" => cipher::schedules(seed),
+        "mojang" => mojang::request(seed),
+        "mchash" => mojang::mchash(seed),
         "cookie_unparseable" => conn::cookie_unparseable(seed),
         "malformed" => packets::malformed(seed),
         other => {
